@@ -268,7 +268,11 @@ func cmdCheck(args []string) int {
 	var covers []*Obligation
 	for _, r := range reports {
 		for _, cp := range r.Cover {
-			covers = append(covers, &Obligation{Name: r.Key + "#cover[" + cp.name + "]", Fn: r.Key, Kind: "cover", Query: r.coverQuery(cp)})
+			var uses []string
+			if len(r.Obls) > 0 {
+				uses = r.Obls[0].Uses
+			}
+			covers = append(covers, &Obligation{Name: r.Key + "#cover[" + cp.name + "]", Fn: r.Key, Kind: "cover", Query: r.coverQuery(cp), Uses: uses})
 		}
 	}
 	prelude := c.prelude()
@@ -305,11 +309,26 @@ func cmdCheck(args []string) int {
 		}
 	}
 	var vacuous []string
+	retTotal, retDead := map[string]int{}, map[string]int{}
 	for _, o := range covers {
+		isRet := strings.Contains(o.Name, "#cover[ret")
+		if isRet {
+			retTotal[o.Fn]++
+		}
 		if o.Result == "unsat" {
-			vacuous = append(vacuous, o.Name)
+			if isRet {
+				retDead[o.Fn]++ // a single unreachable return is fine (e.g. a defensive error path proved dead)
+			} else {
+				vacuous = append(vacuous, o.Name)
+			}
 		}
 	}
+	for fn, n := range retTotal {
+		if n > 0 && retDead[fn] == n {
+			vacuous = append(vacuous, fn+"#cover[all-returns]")
+		}
+	}
+	sort.Strings(vacuous)
 	exit := 0
 	replayDir := filepath.Join(verifDir, "replays", id)
 	os.RemoveAll(replayDir)
